@@ -21,10 +21,14 @@ const (
 	FValidation
 	FAfterEffect // the call takes effect, then an error is returned (lost reply)
 	FCrash       // the controller process dies at this call (before it takes effect)
+	// the scan's first DescribeAutoScalingGroups call (the refresh) succeeds but leaves out one of the requested
+	// groups (the first / the last of the sorted names); on any other call these two kinds inject nothing
+	FOmitFirst
+	FOmitLast
 )
 
 func (k FaultKind) String() string {
-	return [...]string{"none", "notfound", "conflict", "servererr", "throttle", "validation", "aftereffect", "crash"}[k]
+	return [...]string{"none", "notfound", "conflict", "servererr", "throttle", "validation", "aftereffect", "crash", "omitfirst", "omitlast"}[k]
 }
 
 // CrashSignal is the panic value used to simulate the process dying inside a scan.
@@ -73,6 +77,9 @@ func (p *FaultPlan) next(api, target string) FaultKind {
 		k = f
 	} else if f, ok := p.ByNodeUpdate[target]; ok && api == K8sUpdate {
 		k = f
+	}
+	if (k == FOmitFirst || k == FOmitLast) && !(api == AwsDescASG && p.perAPI[api] == 1) {
+		k = FNone
 	}
 	if k != FNone {
 		p.Hits++
